@@ -7,6 +7,12 @@ claim("C01", "fault_enumeration",
       "only blobs verified not to unpickle are injected; the extension workload ext:fault-after-init omits the reload after file/layout faults",
       "DESIGN.md section 4, C01")
 
+claim("C02", "exploration",
+      "controlled schedule injection at SQL-statement granularity (sqlite3/os proxies in pymoca.parser, real sqlite underneath) plus free-running multi-process and multi-thread stress with delay/yield injection; every call compared with the uncached parse, database removal and integrity monitored",
+      "2-3 worker threads call parse() on one cache folder under a scheduler that releases one worker per sqlite call: every schedule with <= 1 preemption (thorough: <= 2 preemptions, 3 workers) and seeded random schedule words over database states absent / existing-unchecked / existing-checked / existing-with-entry / wrong-layout x same or different texts; 2/4/8/16 real processes released by a file barrier with and without <= 5 ms delays at sqlite calls; 4-8 free-running threads with sys.monitoring LINE yield injection. Oracle: every call returns the digest of an uncached parse, no exception, no os.remove of the database, PRAGMA integrity_check ok and all rows unpickle afterwards.",
+      "the database is never corrupt in this workload; failures after a >= 4.5 s lock wait are inconclusive; a worker not back from a sqlite call after 30 ms is treated as blocked on a lock",
+      "DESIGN.md section 4, C02")
+
 claim("C03", "exploration",
       "differential reference-model monitor on parser.parse (generated trees, printed text, value comparison)",
       "Thousands of generated expression trees (plus every type-valid ordered operator pair and every literal form) are printed, parsed by the real parser and compared by value with the tree they were printed from; both the committed generated parser and, when its ATN differs, the parser regenerated from the working-tree grammar are monitored. Sampling, not proof: the right level for an unbounded input space.",
